@@ -15,6 +15,7 @@ import Dalek.Gen.AlgEdwards
 import Dalek.Model.AlgNat
 import Dalek.Model.FastEdwards
 import Dalek.Spec.Montgomery
+import Dalek.Spec.Ed25519
 
 namespace Dalek.Model.Ladder
 open Dalek.IR Dalek.Spec
@@ -109,6 +110,15 @@ def edToMontgomery (e : EPt) : List UInt8 :=
 implementation is the subject of the Edwards scalar-multiplication properties). -/
 def publicKey (secret : List UInt8) : List UInt8 :=
   edToMontgomery (EPt.smul (leToNat (clampInteger secret)) EPt.basepoint)
+
+/-- ed25519-dalek `SigningKey::to_scalar_bytes`: the low half of `SHA-512(seed)` (unclamped) -/
+def toScalarBytes (seed : List UInt8) : List UInt8 := (sha512 seed).take 32
+
+/-- ed25519-dalek `VerifyingKey::to_montgomery` of the verifying key of `seed`: the key's point is
+`mul_base(clamp(lo) mod ℓ)` (`ExpandedSecretKey::from_bytes` reduces the clamped integer), then
+`EdwardsPoint::to_montgomery`. -/
+def verifyingKeyToMontgomery (seed : List UInt8) : List UInt8 :=
+  edToMontgomery (EPt.smul (Ed25519.expandedFromBytes (sha512 seed)).1 EPt.basepoint)
 
 /-- `MontgomeryPoint::ct_eq` — `from_bytes` both sides, then the translated item -/
 def montCtEq (a b : List UInt8) : Bool :=
